@@ -60,7 +60,7 @@ type c11Case struct {
 
 var srcKinds = []string{"file", "buffer", "genericbuffer", "multi", "multi-mixed", "convert-add", "convert-first", "convert-drop", "foreign", "foreign-plain"}
 var sortedSrcKinds = []string{"file", "merge-disjoint", "merge-overlap", "merge-dedup", "dedup", "merge-nosort", "multi", "foreign"}
-var dstKinds = []string{"same", "codec", "version", "encoding", "colenc", "dictmax", "stats", "bloom", "bloomsize", "bloomoff", "maxrows", "sorting", "encrypt", "pagebuf", "indexlimit"}
+var dstKinds = []string{"same", "codec", "nocodec", "version", "encoding", "colenc", "dictmax", "stats", "bloom", "bloomsize", "bloomoff", "maxrows", "sorting", "encrypt", "pagebuf", "indexlimit"}
 
 // dstOpts: the writer options of a destination (or source) file.
 type dstOpts struct {
@@ -153,6 +153,13 @@ func dstFor(kind string, src dstOpts, maxSrcRows int64) dstOpts {
 			d.Codec = "gzip"
 		} else {
 			d.Codec = "snappy"
+		}
+	case "nocodec":
+		// a compressed source into an uncompressed destination (and the reverse)
+		if d.Codec == "none" || d.Codec == "" {
+			d.Codec = "zstd"
+		} else {
+			d.Codec = "none"
 		}
 	case "regress":
 		// the configuration the defect repaired by bdd71f3 was found with: another codec, 1 KiB pages
@@ -1906,7 +1913,7 @@ func run(c *core.Ctx) {
 	}
 	// corpus: each source kind with equal options and with another codec
 	for i, src := range srcKinds {
-		for _, dstk := range []string{"same", "codec"} {
+		for _, dstk := range []string{"same", "codec", "nocodec"} {
 			runCase(c, c11Case{Gen: gen.Case{Seed: int64(500 + i), NRows: 60, MaxDepth: 2, MaxFields: 4, Codecs: codecs, NullBias: 2}, Src: src, Dst: dstk, Parts: 3}, src == "foreign" && dstk == "same")
 		}
 	}
